@@ -128,8 +128,16 @@ Inductive tentry : Type :=
 | TW (st : state) (cid : N)                                  (* container [cid] was written; [st]: right after *)
 | TN (st : state) (ups : list update) (stop : option N).      (* _notify_field_updates(ups) in state [st] *)
 Definition trace : Type := list tentry.
+(* a FieldUpdate holds its old and new value by reference: what a receiver reads there is what those objects hold when the
+   notification is delivered (a later write of the same batch may have gone into a value stored earlier) *)
+Definition current (st : state) (n : node) : node :=
+  match n with
+  | Leaf _ => n
+  | Node i _ _ _ _ _ => match locate st i with Some ps => match get_at st ps with Some m => m | None => n end | None => n end
+  end.
+Definition refresh (st : state) (u : update) : update := mkUpd (u_path u) (u_tid u) (current st (u_old u)) (current st (u_new u)).
 Definition events_of (t : trace) : list event :=
-  flat_map (fun e => match e with TN st ups stop => deliver st ups stop | TW _ _ => [] end) t.
+  flat_map (fun e => match e with TN st ups stop => deliver st (map (refresh st) ups) stop | TW _ _ => [] end) t.
 
 (* --- the trace of every operation (same guards, same primitive calls as SymCoreOps.exec) -------------------------- *)
 Definition cur_id (st : state) (ps : pos) : N := match get_at st ps with Some n => nid0 n | None => 0%N end.
